@@ -14,7 +14,7 @@
    understands (serialize_by_alias, omit_none) are read off them. *)
 From Coq Require Import List String Ascii ZArith Bool.
 From Verif Require Import PyK DialectMerge.
-From VerifGen Require Import K2 K13.
+From VerifGen Require Import K2 K13 K13C.
 From Verif Require Import C15Model C15Proofs.
 Import ListNotations.
 Open Scope string_scope.
@@ -100,6 +100,88 @@ Fixpoint val_sim (a b: val) {struct a} : bool :=
 Definition doc_id (v: val) : res val := C15Model.Ok v.
 Definition doc_toml (v: val) : res val :=
   match v with VDict _ => if has_none v then Err XRaw else C15Model.Ok v | _ => Err XRaw end.
+
+(* what the libraries reject / render, as far as the grammar can produce it (leaks of non-basic values through unions):
+   msgpack.packb and json.dumps raise on a date or a dataclass instance; yaml.safe_dump writes a date as a timestamp
+   (parsed back as a date, compared as ISO text) and raises on an instance *)
+Fixpoint is_basic (dates_ok: bool) (v: val) : bool :=
+  match v with
+  | VNone | VInt _ | VStr _ => true
+  | VDate _ => dates_ok
+  | VList l | VTuple l => forallb (is_basic dates_ok) l
+  | VDict kvs => forallb (fun kv => is_basic dates_ok (snd kv)) kvs
+  | VObj _ _ => false
+  end.
+Fixpoint render_dates (v: val) : val :=
+  match v with
+  | VDate s => VStr s
+  | VList l => VList (map render_dates l)
+  | VTuple l => VList (map render_dates l)
+  | VDict kvs => VDict (map (fun kv => match kv with (k, x) => (k, render_dates x) end) kvs)
+  | _ => v
+  end.
+Definition doc_basic (v: val) : res val := if is_basic false v then C15Model.Ok v else Err XRaw.
+Definition doc_yaml (v: val) : res val := if is_basic true v then C15Model.Ok (render_dates v) else Err XRaw.
+
+(* ---- which built-in format dialect touches a type of the grammar: read off the tables the kernel K13C extracts
+   from mashumaro/codecs/*.py and mashumaro/mixins/*.py on every run.  The STRATEGY part of dialects is not in this
+   model; where a built-in dialect has a strategy for `date` (pass_through turns the date member of a union into an
+   identity member and lets dates through into the document) union-reaching types are outside its domain. *)
+Definition plan_of (fmt: string) : option string :=
+  match find (fun p => match p with (m, _, _) => String.eqb m fmt end) codec_plan with
+  | Some (_, _, plan) => Some plan
+  | None => None
+  end.
+Definition dialect_name_of (fmt: string) : option string :=
+  match plan_of fmt with
+  | Some plan => if String.prefix "merge:" plan then Some (String.substring 6 (String.length plan - 6) plan) else None
+  | None => None
+  end.
+Definition strategy_types_of (dname: string) : list nat :=
+  match find (fun p => String.eqb (fst p) dname) format_dialect_strategies with
+  | Some (_, sm) => map fst sm
+  | None => []
+  end.
+Definition fmt_touches (fmt tyname: string) : bool :=
+  match dialect_name_of fmt, find (fun p => String.eqb (fst p) tyname) type_ids with
+  | Some dn, Some (_, id) => existsb (Nat.eqb id) (strategy_types_of dn)
+  | _, _ => false
+  end.
+
+Fixpoint ty_has_union (t: ty) : bool :=
+  match t with
+  | TUnion _ => true
+  | TList t' | TDict t' | TOpt t' => ty_has_union t'
+  | TTuple ts => existsb ty_has_union ts
+  | _ => false
+  end.
+Definition env_has_union (E: env) : bool :=
+  existsb (fun d => existsb (fun f => ty_has_union (f_ty f)) (c_fields d)) E.
+Definition fmt_sets (fmt opt: string) : bool :=
+  match dialect_name_of fmt with
+  | Some dn => match find (fun p => String.eqb (fst p) dn) format_dialect_options with
+               | Some (_, os) => existsb (fun p => String.eqb (fst p) opt) os
+               | None => false end
+  | None => false
+  end.
+(* outside the domain of the format model: a union somewhere and a built-in dialect that has a strategy for `date`
+   or sets no_copy_collections (then Dict[str,str] / List[int] members become identity members of the union) *)
+Definition strategy_sensitive (fmt: string) (E: env) (t: ty) : bool :=
+  (ty_has_union t || env_has_union E) && (fmt_touches fmt "date" || fmt_sets fmt "no_copy_collections").
+
+Definition doc_for (fmt: string) : val -> res val :=
+  if String.eqb fmt "toml" then doc_toml
+  else if String.eqb fmt "yaml" then doc_yaml
+  else if String.eqb fmt "orjson" then doc_id       (* orjson renders dates itself; instances only leak through unions *)
+  else doc_basic.
+Definition reorders_keys (fmt: string) : bool := String.eqb fmt "toml" || String.eqb fmt "yaml".
+
+Example fmt_touches_table :
+  map (fun f => fmt_touches f "date") ["msgpack"; "orjson"; "json"; "yaml"; "toml"] = [false; true; false; false; true].
+Proof. vm_compute. reflexivity. Qed.
+Example fmt_sets_table :
+  map (fun f => fmt_sets f "no_copy_collections") ["msgpack"; "orjson"; "json"; "yaml"; "toml"] = [true; true; false; false; true].
+Proof. vm_compute. reflexivity. Qed.
 
 (* ------------------------------------------------------------------ *)
 Lemma in_loop_by_alias : In "serialize_by_alias" merge_loop_keys.
